@@ -40,6 +40,8 @@ def main():
             step("load3", lambda: dds.load("/x/y/z"))
         elif act.startswith("chdir:"):
             step("chdir", lambda: os.chdir(act[6:]))
+        elif act == "set_store":
+            step("set_store", lambda: dds.set_store("local", internal_dir=job["internal"], data_dir=job["data"], **kw))
     print("RESULT " + json.dumps(out))
 
 
